@@ -104,6 +104,12 @@ def jsonWiring : List (String × String × String) := [("google.golang.org/proto
 
 def jsonSetters : List (String × String) := [("JSONIndent", "indent"), ("JSONUseEnumNumbers", "useEnumNumbers"), ("JSONIncludeZeroValues", "emitZeroValues"), ("JSONAllowUnknownFields", "allowUnknownFields"), ("JSONAllowPartialMessages", "allowPartial")]
 
+/-- assignments to a JSON option field outside the option constructors -/
+def jsonOptionWritesElsewhere : List String := []
+
+/-- places of the root package that ask a runtime to use its cached sizes -/
+def cachedSizeRequests : List String := []
+
 def grpcCodec : List String := ["Marshal -> Marshal", "Unmarshal -> Unmarshal", "Name = \"proto\""]
 
 /-- (function, statements outside the arms of its `switch MsgType`): the whole control shape around the dispatch -/
